@@ -136,6 +136,38 @@ def to_int_like(v):
     return v
 
 
+def int2bv(t, w):
+    """Int2BV distributed over ite, +, -, * by constants and mod 2**w (a ring homomorphism Z -> Z/2**w): the conversion then
+    reaches the leaves, where it meets constants or atomic terms"""
+    if z3.is_int_value(t):
+        return z3.BitVecVal(t.as_long(), w)
+    if z3.is_app(t):
+        k = t.decl().kind()
+        ch = t.children()
+        if k == z3.Z3_OP_ITE:
+            return z3.If(ch[0], int2bv(ch[1], w), int2bv(ch[2], w))
+        if k == z3.Z3_OP_ADD:
+            r = int2bv(ch[0], w)
+            for c in ch[1:]:
+                r = r + int2bv(c, w)
+            return r
+        if k == z3.Z3_OP_SUB:
+            r = int2bv(ch[0], w)
+            for c in ch[1:]:
+                r = r - int2bv(c, w)
+            return r
+        if k == z3.Z3_OP_UMINUS:
+            return -int2bv(ch[0], w)
+        if k == z3.Z3_OP_MUL:
+            r = int2bv(ch[0], w)
+            for c in ch[1:]:
+                r = r * int2bv(c, w)
+            return r
+        if k == z3.Z3_OP_MOD and z3.is_int_value(ch[1]) and ch[1].as_long() == 2 ** w:
+            return int2bv(ch[0], w)
+    return z3.Int2BV(t, w)
+
+
 def coerce_scalar(val, dt):
     """coerce a value to the element sort of an array with dtype code dt"""
     if dt == "f":
@@ -169,7 +201,7 @@ def coerce_scalar(val, dt):
         if z3.is_bool(val):
             return z3.If(val, z3.BitVecVal(1, w), z3.BitVecVal(0, w))
         if z3.is_int(val):
-            return z3.Int2BV(val, w)
+            return int2bv(val, w)
         if z3.is_bv(val):
             if val.size() == w:
                 return val
